@@ -582,5 +582,35 @@ func histRandom(r *rng, profile string) histScn {
 		s.script = append(s.script, histAct{t: t, act: act})
 	}
 	s.end = t + int64(r.pick(50, 400, 1200, 3000))*ms
+	// probes around the write-off instants: batches are raised at flush ticks, so sample at tick + MaxOperationTime -1ns/0/+1ns
+	if started && r.chance(1, 2) {
+		for j := 0; j < 3; j++ {
+			tick := int64(1+r.intn(12)) * flushEff
+			for _, w := range s.ws {
+				eff := motEff
+				if w.mot > 0 {
+					eff = w.mot
+				}
+				for _, d := range []int64{-1, 0, 1} {
+					if tt := tick + eff + d; tt > 0 && tt < s.end {
+						s.script = append(s.script, histAct{t: tt, act: "s"})
+					}
+				}
+			}
+		}
+	}
+	// an Enqueue parked between counting and inserting while an audit tick fires (hook "enqueue:counted")
+	if started && r.chance(1, 6) {
+		auditEff := s.audit
+		if auditEff <= 0 {
+			auditEff = 10000 * ms
+		}
+		tick := int64(1+r.intn(3)) * auditEff
+		if tick+2*ms < s.end {
+			obj := r.intn(nops)
+			s.script = append(s.script, histAct{t: tick - ms/2, act: fmt.Sprintf("h%d", obj)}, histAct{t: tick + ms/2, act: fmt.Sprintf("u%d", obj)})
+		}
+	}
+	sort.SliceStable(s.script, func(i, j int) bool { return s.script[i].t < s.script[j].t })
 	return s
 }
